@@ -93,7 +93,7 @@ def EM(kinds, names=False):
 
 
 PROPS = {
-    "C01": P([ARGN, PARM, IDSPACE, FRESH, ("fields", "struct_copy_pairing", {}), RECD, FULLIT, TT_WE, TT_AUX, CONSTEXPR, ("emit", "section_order", {}), ("nopanic", "payload_exh_rule", {}), SCRATCH] + REIDX,
+    "C01": P([ARGN, PARM, KMIX, MAPARGS, IDSPACE, FRESH, ("fields", "struct_copy_pairing", {}), RECD, FULLIT, TT_WE, TT_AUX, CONSTEXPR, ("emit", "section_order", {}), ("nopanic", "payload_exh_rule", {}), SCRATCH] + REIDX,
              "necessary-condition lint: every value type of the stated profile survives the reader→writer tables; constant-expression operators are re-emitted as themselves; sections are emitted in binary-format order; every payload kind has a handler",
              "R-TYPE-TABLE (wasm_encoder writer), aux tables, R-CONSTEXPR-TABLE, R-SECTION-ORDER, R-PAYLOAD-EXH, R-PARSE-ARM, R-LOOP-SCRATCH, R-REFERS-EXH (the updaters run on every encode, with identity maps on an unmodified module: each must write a looked-up index back to the operand it was looked up for).",
              "that the whole output validates for every module.",
@@ -159,7 +159,7 @@ PROPS = {
              "R-TYPE-FIELD-FLOW, R-FIELDS-COVER(Types), R-TYPE-DEDUP, R-HASHORDER, R-SWAP, R-TYPE-TABLE.",
              "index stability with explicit rec groups (iso-recursive identity).",
              "who-may-write + guarded-insert analysis"),
-    "C14": P([("mutators", "locals_owner", {}), TT_WE, IDSPACE],
+    "C14": P([FULLIT, ("mutators", "locals_owner", {}), TT_WE, IDSPACE],
              "the local-adding machinery has one writer with the right shape and every entry point reaches it with the parameter count of the same function",
              "R-LOCALS (owner, shape on every path, caller arguments), R-TYPE-TABLE, R-IDSPACE (the function id an entry point hands to the owner is not re-derived from a cursor position).",
              "nothing beyond the trusted base for the index formula; the encoded declaration relies on C01's tables.",
@@ -209,7 +209,7 @@ PROPS = {
              "R-OPCODE-TABLE for all helpers, R-TYPE-TABLE(aux) for BlockType/HeapType conversions, writer agreement for DataType.",
              "Inject::inject implementations (C15/C12) and dependency From impls (trusted).",
              "abstract interpretation of each helper body; frozen reviewed name→variant table", level="proof"),
-    "C25": P([FRESH, IDSPACE, SKIPPASS, ITCFG, FULLIT, ("iters", "skip_loop", {}), ("iters", "coupled_state", {}), ("iters", "index_sites", {})],
+    "C25": P([KMIX, ("misc", "builder_flow", {}), FRESH, IDSPACE, SKIPPASS, ITCFG, FULLIT, ("iters", "skip_loop", {}), ("iters", "coupled_state", {}), ("iters", "index_sites", {})],
              "necessary: the skip loop can only stop on an unskipped function or past the end; cursor and instruction bound move together; no unguarded index in the sub-iterators",
              "R-SKIP-LOOP, R-COUPLED-STATE, R-ITER-INDEX.",
              "exactly-once visiting over all skip lists.",
